@@ -19,7 +19,7 @@ RULE = ('case = a rule universe (4-9 rule ASTs with shared prefixes, wildcard si
         'Allow, SIMPLE hook sequence as (tag, position)); independently the selected route equals the reference matcher over the survivors and the hook '
         'sequence equals "hooks whose pattern is a prefix of the matched route pattern, outermost first, position = path consumed by that prefix"; '
         'router[name], router[{rule}], router.routes and router.hooks agree with the model; every fifth step the history so far is also replayed through '
-        'Ombott.__call__ and the hook invocation log (tag, path prefix) is compared. Hooks lying under a removed prefix* are unjudged (counted). '
+        'Ombott.__call__ and the hook invocation log (tag, path prefix) is compared. Hooks lying under a removed prefix* are unjudged (counted) until a slot is written again (that slot is then known); plus one large history in which 160 routes with distinct filter expressions come and go around a surviving filtered route. '
         'Non-trivial = a removal after >= 2 accepted adds sharing a prefix, any hook operation, or a re-add after a removal; distinct by (universe, history).')
 ASSUMPTIONS = ['reference matcher vlib/rules.py is trusted', 'prefix-wildcard removal is specified for routes only: hooks under the prefix are not judged',
                'whether a first registration is accepted by the tree (filter conflicts) is observed, not predicted; must-reject cases (taken name / method) are predicted',
@@ -138,7 +138,7 @@ def build_fresh(model, tags, spell):
     """A router freshly built from the survivors, in acceptance order."""
     from ombott.router.radirouter import RadiRouter
     fresh = RadiRouter()
-    items = [(v['order'], 'r', k, v) for k, v in model.routes.items()] + [(v['order'], 'h', k, v) for k, v in model.hooks.items() if not v['unjudged']]
+    items = [(v['order'], 'r', k, v) for k, v in model.routes.items()] + [(v['order'], 'h', k, v) for k, v in model.hooks.items() if any(v['known'])]
     for _, kind, key, v in sorted(items, key=lambda t: t[0]):
         if kind == 'r':
             for M, m in v['methods'].items():
@@ -146,7 +146,7 @@ def build_fresh(model, tags, spell):
         else:
             text = R.render(v['ast'], v['choice'], spell)
             for t, tag in enumerate(v['pair']):
-                if tag is not None:
+                if tag is not None and v['known'][t]:
                     fresh.add_hook(text, tags.hook(tag), hook_type=t)
     for name, key in model.names.items():
         v = model.routes[key]
@@ -216,7 +216,7 @@ def expected(model, path, method):
     posmap = consumed_positions(v['ast'], sp)
     hs = []
     for hk, hv in model.hooks.items():
-        if hv['unjudged'] or hv['pair'][0] is None:
+        if not hv['known'][0] or hv['pair'][0] is None:
             continue
         if key.startswith(hk) and len(hk) in posmap:
             hs.append((len(hk), hv['pair'][0], posmap[len(hk)]))
@@ -307,8 +307,8 @@ def run_history(ctx, case, every_step=True, wsgi=True):
                 for key in [k for k in model.routes if k.startswith(pk)]:
                     _drop_route(model, key)
                 for hk, hv in model.hooks.items():
-                    if hk.startswith(pk) and not hv['unjudged']:
-                        hv['unjudged'] = True
+                    if hk.startswith(pk) and any(hv['known']):
+                        hv['known'] = [False, False]          # whether the tree still holds these hooks is unspecified
                         ctx.count('hooks_unjudged_after_prefix_removal')
                 model.flags.add('prefix_removal')
         elif kind == 'add_hook':
@@ -325,13 +325,18 @@ def run_history(ctx, case, every_step=True, wsgi=True):
             hv = model.hooks.get(key)
             if ok:
                 if hv is None:
-                    hv = model.hooks[key] = {'ast': ast, 'sig': sg, 'pair': [None, None], 'order': model.tick(), 'unjudged': False, 'choice': op['choice']}
-                elif hv['unjudged']:
-                    # the tree may or may not still hold the old pair: the entry stays unjudged until it is removed explicitly
+                    hv = model.hooks[key] = {'ast': ast, 'sig': sg, 'pair': [None, None], 'order': model.tick(), 'known': [True, True], 'choice': op['choice']}
+                elif not all(hv['known']):
+                    # whatever the tree still held under the removed prefix, the slot just written now holds this hook (the other slot stays unknown)
                     ctx.count('hook_reinstalled_over_unjudged')
+                    if not any(hv['known']):
+                        hv['order'] = model.tick()
+                        hv['choice'] = op['choice'] if hv['sig'] == sg else hv['choice']
                 hv['pair'][op['type']] = tag
+                # (if the rule is now spelled with other filters it is unknown which filters the node carries: the slot stays unjudged)
+                hv['known'][op['type']] = hv['sig'] == sg or any(hv['known'])
                 model.flags.add('hook_op')
-            elif hv is not None and not hv['unjudged']:
+            elif hv is not None and all(hv['known']):
                 raise CheckFailure(f'{what}: add_hook({text!r}) on a pattern that already holds hooks was rejected')
         elif kind == 'remove_hook':
             ast = hookable[op['hook'] % len(hookable)]
@@ -363,9 +368,8 @@ def _desc(model, spell):
 
 def compare(ctx, case, model, router, tags, what):
     spell = case['spell']
-    unjudged = {t for hv in model.hooks.values() if hv['unjudged'] for t in hv['pair'] if t}
     # tags of hooks that were dropped from the model while unjudged can still sit in the edited tree: treat every tag not in the judged set as unjudged
-    judged = {t for hv in model.hooks.values() if not hv['unjudged'] for t in hv['pair'] if t}
+    judged = {t for hv in model.hooks.values() for i, t in enumerate(hv['pair']) if t and hv['known'][i]}
 
     class _U:
         def __contains__(self, t):
@@ -374,21 +378,21 @@ def compare(ctx, case, model, router, tags, what):
         fresh = build_fresh(model, tags, spell)
     except Exception as e:
         raise CheckFailure(f'{what}: a fresh router could not be built from the survivors {_desc(model, spell)}, hooks '
-                           f'{[(R.render(h["ast"], (), spell), h["pair"]) for h in model.hooks.values()]}: {type(e).__name__}: {str(e)[:300]}')
+                           f'{[(R.render(h["ast"], (), spell), h["pair"]) for h in model.hooks.values()]}: {type(e).__name__}: {str(e)[:300]}') from None      # (RadiDictKeyError cannot be printed as a chained exception)
     for path in case['paths']:
         for method in ('GET', 'POST'):
             a = observe(router, path, method, _U())
             b = observe(fresh, path, method, _U())
             if a != b:
                 raise CheckFailure(f'{what}: {method} {path!r}: edited router answers {a}, a router freshly built from the survivors answers {b}\n'
-                                   f' survivors {_desc(model, spell)}\n hooks {[(R.render(h["ast"], (), spell), h["pair"], "unjudged" if h["unjudged"] else "") for h in model.hooks.values()]}\n'
+                                   f' survivors {_desc(model, spell)}\n hooks {[(R.render(h["ast"], (), spell), h["pair"], h["known"]) for h in model.hooks.values()]}\n'
                                    f' history {case["ops"][:int(what.split()[1]) + 1]}')
             e = expected(model, path, method)
             if e is None:
                 ctx.exclude('unspecified_empty')
             elif a[:len(e)] != e and not (a[0] == 'err' and e[0] == 'err' and a[1] == e[1] == 404):
                 raise CheckFailure(f'{what}: {method} {path!r}: edited router answers {a}, model + reference matcher expect {e}\n survivors {_desc(model, spell)}\n'
-                                   f' hooks {[(R.render(h["ast"], (), spell), h["pair"]) for h in model.hooks.values() if not h["unjudged"]]}')
+                                   f' hooks {[(R.render(h["ast"], (), spell), h["pair"], h["known"]) for h in model.hooks.values()]}')
             if a[0] == 'ok' and a[3]:
                 ctx.count('probe_with_hooks_fired')
     # indexes
@@ -411,7 +415,7 @@ def compare(ctx, case, model, router, tags, what):
         want = ent is not None and ent['sig'] == sig(ast)
         if (r is not None) != want:
             raise CheckFailure(f'{what}: router[{{{text!r}}}] is {r!r}; model: route {"exists" if want else "does not exist"}')
-    judged_hooks = {k for k, v in model.hooks.items() if not v['unjudged']}
+    judged_hooks = {k for k, v in model.hooks.items() if any(v['known'][i] and v['pair'][i] for i in (0, 1))}
     rh = set(router.hooks)
     if judged_hooks - rh:
         raise CheckFailure(f'{what}: router.hooks lacks installed hook patterns {sorted(judged_hooks - rh)!r}')
@@ -424,7 +428,7 @@ def compare_wsgi(ctx, case, model, router, tags, log, what):
     import ombott
     app = ombott.Ombott()
     app.router = router
-    judged = {t for hv in model.hooks.values() if not hv['unjudged'] for t in hv['pair'] if t}
+    judged = {t for hv in model.hooks.values() for i, t in enumerate(hv['pair']) if t and hv['known'][i]}
     for path in case['paths'][:6]:
         try:
             path.encode('utf8')
@@ -502,7 +506,30 @@ def bounded(ctx):
     ctx.count(f'bounded_histories_depth_{depth}', len(mine))
 
 
+def large_history(ctx):
+    """Size dimension: a route with a filter survives while 160 other routes, each with its own filter expression, come and go."""
+    keep = [['lit', '/keep/'], ['w', 'x', 're', 'k+']]
+    uni = [keep] + [[['lit', '/t%d/' % i], ['w', 'y', 're', 'z{%d}' % (i + 1)]] for i in range(160)]
+    ops = [{'op': 'add', 'rule': 0, 'methods': ['GET'], 'name': 'n1', 'overwrite': False, 'choice': []}]
+    for i in range(1, 161):
+        ops.append({'op': 'add', 'rule': i, 'methods': ['GET'], 'name': None, 'overwrite': False, 'choice': []})
+        if i % 4:
+            ops.append({'op': 'remove', 'rule': i, 'choice': []})
+    ops.append({'op': 'add', 'rule': 0, 'methods': ['POST'], 'name': None, 'overwrite': False, 'choice': [2]})
+    ops.append({'op': 'add_hook', 'hook': 0, 'type': 0, 'choice': []})
+    case = {'universe': uni, 'hookable': [[['lit', '/']], [['lit', '/keep/']]], 'spell': 0, 'ops': ops, 'paths': ['/keep/kk', '/keep/x', '/t8/zzzzzzzzz', '/t5/zzzzzz', '/t160/z', '/nope']}
+    ctx.evals += 1
+    try:
+        run_history(ctx, case, every_step=False, wsgi=False)
+    except CheckFailure as f:
+        ctx.record_violation(case, str(f))
+    ctx.nontrivial('large_history')
+    ctx.count('large_history_ops', len(ops))
+
+
 def run(ctx):
+    if ctx.shard == 0:
+        large_history(ctx)
     for name, case in load_corpus(ID):
         ctx.guarded(check_case, case)
         ctx.count('corpus')
